@@ -4,6 +4,7 @@ use vstd::prelude::*;
 use std::collections::HashMap;
 use vstd::std_specs::cmp::PartialOrdSpec;
 verus! {
+//@include specs/std_extra.rs
 //@include specs/err.rs
 //@include specs/chars.rs
 //@include specs/ws.rs
